@@ -3,6 +3,8 @@ NEXT Stutter
 CONSTANTS N = 3
  NNames = 2
  FullY = FALSE
+ Pep709 = FALSE
+ Skeleton = FALSE
  AllOptions = FALSE
 INVARIANT EmitProgram
 CHECK_DEADLOCK FALSE
